@@ -454,7 +454,7 @@ def plan_C13(tier, seed):
             if rng.random() < 0.75:
                 continue
             a = J0 + rng.random() * (J1 - J0 - 12 * P)
-            wins, stride = [(a, a + 10 * P)], 1
+            wins, stride = [(a, a + 10 * P)], (4 if pl == "Mercury" else 1)
         else:
             stride = 4 if pl == "Mercury" else 1
             nchunk = max(1, int((J1 - J0) / P * cost / stride / 100.0 + 0.5))
